@@ -92,7 +92,6 @@ func propC05CoreWith(rec *hx.Recorder) func(*rapid.T) {
 		rapid.SyncTest(rt, func(rt *rapid.T) {
 			h := newHostileRun(cfg)
 			h.noAdmission = true
-			sinceFlush := 1 << 20 // pending acks of the non-mutated steps are not tracked: start loose, tighten once empty
 			for i := 0; i < nops && h.err == nil; i++ {
 				if rapid.IntRange(0, 2).Draw(rt, "hostile") == 0 {
 					// a forged but well-formed datagram, then mutated
@@ -106,13 +105,11 @@ func propC05CoreWith(rec *hx.Recorder) func(*rapid.T) {
 						passed++
 					}
 					// what Input does with garbage is unspecified except: no panic, limits hold
+					h.ackBytes += len(raw)
 					h.k.Input(raw, kcp.PacketType(rapid.IntRange(0, 1).Draw(rt, "pktType")), rapid.Bool().Draw(rt, "ackNoDelay"))
-					// pending acks are bounded by what arrived since they were last flushed
-					sinceFlush += len(raw)
-					if st := h.k.VerifState(false); st.AckList == 0 {
-						sinceFlush = 0
-					} else if st.AckList > int(st.Mtu)/24+sinceFlush/24+1 {
-						h.fail("ack list holds %d entries, %d bytes arrived since it was last empty (mtu %d)", st.AckList, sinceFlush, st.Mtu)
+					// pending acks are bounded by what arrived since the list was last empty
+					if st := h.k.VerifState(false); st.AckList > int(st.Mtu)/24+h.ackBytes/24+1 {
+						h.fail("ack list holds %d entries, %d bytes arrived since it was last empty (mtu %d)", st.AckList, h.ackBytes, st.Mtu)
 					}
 					h.done("Input(mutated)")
 				} else {
